@@ -25,7 +25,7 @@ def bounds(tier):
             "pairwise_rows": "strength-2 covering design over 15 fields (fan/humidity on representative values)"}
 
 
-def gen_cases():
+def gen_cases(tier="quick"):
     cases = []
     for t, m, f in product(dz.SETPOINTS, dz.MODES, (False, True)):
         cases.append({**dz.BASE, "temp": t, "mode": m, "fahrenheit": f})
@@ -49,6 +49,9 @@ def gen_cases():
             cases.append({**base, "swing": sw})
     cases += dz.single_field_sweeps()
     cases += dz.pairwise(dz.field_domains(rep=True))
+    if tier == "thorough":
+        cases += dz.pairwise(dz.field_domains(rep=False), seed=77)
+        cases += dz.single_field_sweeps([dict(r) for r in dz.pairwise(dz.field_domains(rep=True), seed=5)[:12]])
     # de-duplicate, keep order
     seen, out = set(), []
     for c in cases:
@@ -60,7 +63,7 @@ def gen_cases():
 
 
 def shards(tier):
-    cases = gen_cases()
+    cases = gen_cases(tier)
     n = 16
     return [("cases", cases[i::n]) for i in range(n)]
 
